@@ -481,6 +481,14 @@ def _tree_chunk(items):
                         fails.append(("tree:same-tree-for-str-and-bytes", {"text": text, "entry": entry, "submitted_as": label},
                                       "submitting the text as %s gives a different tree (or different spans) than submitting it as str" % label))
             nodes += sum(1 for _ in TC.walk(doc))
+            if not efv and n % 7 == 0:
+                # every call builds its own tree: two parses of one text share no node (a caller may edit the tree it was given; the next caller gets the text's tree)
+                again = _entry_call(entry)(text, **flags)
+                mine = {id(a_) for _p, a_ in TC.walk(doc)}
+                shared = [type(a_).__name__ for _p, a_ in TC.walk(again) if id(a_) in mine]
+                if shared or again is doc:
+                    fails.append(("tree:fresh-for-every-call", {"text": text, "entry": entry}, "two calls on the same text return trees sharing %d node objects (%s): an edit of one caller's tree "
+                                  "shows up in what the next caller is given" % (len(shared), ", ".join(shared[:3]))))
             if not efv:
                 # the tree is a function of the token sequence: re-spelling what lies BETWEEN the tokens (blanks, commas, comments ended by LF, CR or CRLF, byte order
                 # marks) changes the spans only.  One spelling per text, in rotation over the corpus.
